@@ -92,5 +92,32 @@ static inline vf_stream *vf_mk_ostream(size_t cap)
   return f;
 }
 
+/* an input stream over an arbitrary file image, in an arbitrary state (weak precondition of C16) */
+static inline void vf_mk_istream_in(vf_stream *f)
+{
+  size_t len = nondet_size_t();
+  __CPROVER_assume(len <= VF_MAXFILE);
+  f->buf = (unsigned char *)vf_alloc(len ? len : 1);
+  f->len = len;
+  f->cap = len;
+  long pos;
+  __CPROVER_assume(pos >= -1 && pos <= (long)VF_MAXFILE + 0x100000000L);
+  f->pos = pos;
+  f->is_open = nondet_bool();
+  f->eof = nondet_bool();
+  f->fail = nondet_bool();
+  f->writable = 0;
+  f->work = 0;
+}
+
+static inline struct c3d *vf_mk_c3d_reader(void)
+{
+  struct c3d *c = (struct c3d *)vf_alloc(sizeof(*c));
+  vf_mk_istream_in(&c->vf_base);
+  c->m_nByteToRead_float = 4;
+  c->c_float = (char *)vf_alloc(5);
+  return c;
+}
+
 #define VF_CANARY() __CPROVER_assert(0, "VACUITY_CANARY")
 #endif
